@@ -292,6 +292,21 @@ pub fn check_message(ctx: &Ctx, idx: u64, msg: Message, r: &mut Rng, out: &mut O
                 let mut f = frame.clone();
                 f[pos] = b;
                 consistent(&f, out);
+                // strict parsing: a frame that differs from a valid frame in exactly one byte
+                // cannot mean the same message - if it is accepted as the same message, the
+                // byte that differs was read leniently (e.g. an option / enum tag or a boolean
+                // taken as "anything but 0"), i.e. a field that is not well-formed was accepted
+                if pos >= 5 {
+                    if let Ok(Ok(m2)) = parse(&f) {
+                        if m2 == msg {
+                            out.violation(
+                                "accepts-alias-of-valid-frame",
+                                format!("{}: changing byte {} of a valid frame from {} to {} gives a frame that is accepted as the very same message", kind_name, pos, orig, b),
+                                rp(&f, json!({"valid_frame": hex_trunc(&frame, 300), "position": pos})),
+                            );
+                        }
+                    }
+                }
             }
         }
     }
